@@ -123,7 +123,14 @@ Proof.
 Qed.
 Lemma a_ok_close : forall a, a_ok a true -> a_ok (a_close a) false.
 Proof.
-  intros a H. unfold a_close, a_ok, a_lit, a_mark, a_rstrip. cbn [a_out a_cur].
+  intros a H. unfold a_close, a_ok, a_mark. cbn [a_out a_cur].
+  destruct (flush_ok (a_cur a) (a_out a) true H) as [H1 H2]. split.
+  - cbn [forallb span_tok]. exact H1.
+  - cbn [rev]. rewrite tdepth_app, H2. reflexivity.
+Qed.
+Lemma a_ok_close_sp : forall a, a_ok a true -> a_ok (a_close_sp a) false.
+Proof.
+  intros a H. unfold a_close_sp, a_ok, a_lit, a_mark, a_rstrip. cbn [a_out a_cur].
   destruct (flush_ok (drop_while is_space (a_cur a)) (a_out a) true H) as [H1 H2]. split.
   - cbn [forallb span_tok]. exact H1.
   - cbn [rev]. rewrite tdepth_app, H2. reflexivity.
@@ -141,10 +148,11 @@ Definition flag_of (atok : style -> option (list (str * str))) (cur : option sty
   match cur with Some st => opt_some (atok st) | None => false end.
 
 (* along flat balanced spans: the open flag says whether the current span was written, depth = flag *)
-Lemma abs_run_ok : forall sfx atok ns a cur, flat_aux ns cur = true -> a_ok a (flag_of atok cur) ->
-  let r := fold_left (abs_step sfx atok) ns (a, flag_of atok cur) in a_ok (fst r) false /\ snd r = false.
+Lemma abs_run_ok : forall sfx acl atok, (forall a, a_ok a true -> a_ok (acl a) false) ->
+  forall ns a cur, flat_aux ns cur = true -> a_ok a (flag_of atok cur) ->
+  let r := fold_left (abs_step sfx acl atok) ns (a, flag_of atok cur) in a_ok (fst r) false /\ snd r = false.
 Proof.
-  intros sfx atok. induction ns as [|n ns IH]; intros a cur Hf Ha.
+  intros sfx acl atok Hacl. induction ns as [|n ns IH]; intros a cur Hf Ha.
   - cbn [flat_aux] in Hf. destruct cur; [discriminate|]. split; [exact Ha|reflexivity].
   - cbn [fold_left]. destruct n as [s| |[] st]; cbn [flat_aux abs_step] in *.
     + apply (IH _ cur Hf). apply a_ok_lit, a_ok_text. exact Ha.
@@ -156,16 +164,17 @@ Proof.
       * pose proof (IH a (Some st) Hf) as Q. cbn [flag_of] in Q. rewrite E in Q. apply Q. exact Ha.
     + destruct cur as [st0|]; [|discriminate]. apply andb_true_iff in Hf. destruct Hf as [_ Hf]. cbn [flag_of] in *.
       destruct (opt_some (atok st0)).
-      * apply (IH (a_close a) None Hf). apply a_ok_close. exact Ha.
+      * apply (IH (acl a) None Hf). apply Hacl. exact Ha.
       * apply (IH a None Hf). exact Ha.
 Qed.
 
-Theorem abs_tokens_balanced : forall sfx atok ns, flat_balanced ns = true ->
-  forallb span_tok (abs_tokens sfx atok ns) = true /\ tdepth (abs_tokens sfx atok ns) 0 = Some 0%nat.
+Theorem abs_tokens_balanced : forall sfx acl atok ns, (forall a, a_ok a true -> a_ok (acl a) false) ->
+  flat_balanced ns = true ->
+  forallb span_tok (abs_tokens sfx acl atok ns) = true /\ tdepth (abs_tokens sfx acl atok ns) 0 = Some 0%nat.
 Proof.
-  intros sfx atok ns H. unfold abs_tokens, abs_run.
-  destruct (abs_run_ok sfx atok ns (mkA [] []) None H) as [[H1 H2] _]; [split; reflexivity|].
-  cbn [flag_of] in *. set (a := fst (fold_left (abs_step sfx atok) ns (mkA [] [], false))) in *.
+  intros sfx acl atok ns Hacl H. unfold abs_tokens, abs_run.
+  destruct (abs_run_ok sfx acl atok Hacl ns (mkA [] []) None H) as [[H1 H2] _]; [split; reflexivity|].
+  cbn [flag_of] in *. set (a := fst (fold_left (abs_step sfx acl atok) ns (mkA [] [], false))) in *.
   destruct (flush_ok (a_cur (a_rstrip a)) (a_out (a_rstrip a)) false (conj H1 H2)) as [F1 F2].
   split; [rewrite forallb_rev_gen; exact F1|exact F2].
 Qed.
@@ -211,14 +220,20 @@ Qed.
 
 Lemma vis_brk : vis [brk_mark] = [brk_mark]. Proof. reflexivity. Qed.
 
-Lemma abs_run_vis : forall sfx atok ns a open, forallb lit_space sfx = true ->
-  vis (a_flat (fst (fold_left (abs_step sfx atok) ns (a, open)))) = vis (a_flat a) ++ vis (node_flat ns).
+Lemma vis_close : forall x, vis (a_flat (a_close x)) = vis (a_flat x).
+Proof. intros x. unfold a_close. rewrite vis_flat_mark. cbn. rewrite app_nil_r. reflexivity. Qed.
+Lemma vis_close_sp : forall x, vis (a_flat (a_close_sp x)) = vis (a_flat x).
 Proof.
-  intros sfx atok ns a open Hsfx. revert a open. induction ns as [|n ns IH]; intros a open.
+  intros x. unfold a_close_sp. rewrite vis_flat_lit by reflexivity. rewrite vis_flat_mark, vis_flat_rstrip. cbn. rewrite app_nil_r. reflexivity.
+Qed.
+
+Lemma abs_run_vis : forall sfx acl atok, (forall x, vis (a_flat (acl x)) = vis (a_flat x)) ->
+  forall ns a open, forallb lit_space sfx = true ->
+  vis (a_flat (fst (fold_left (abs_step sfx acl atok) ns (a, open)))) = vis (a_flat a) ++ vis (node_flat ns).
+Proof.
+  intros sfx acl atok Hclose ns a open Hsfx. revert a open. induction ns as [|n ns IH]; intros a open.
   - cbn. rewrite app_nil_r. reflexivity.
   - cbn [fold_left]. unfold node_flat. cbn [flat_map]. fold (node_flat ns). rewrite vis_app.
-    assert (Hclose : forall x, vis (a_flat (a_close x)) = vis (a_flat x)).
-    { intros x. unfold a_close. rewrite vis_flat_lit by reflexivity. rewrite vis_flat_mark, vis_flat_rstrip. cbn. rewrite app_nil_r. reflexivity. }
     destruct n as [s| |[] st]; cbn [abs_step node_flat1].
     + rewrite IH, vis_flat_lit by exact Hsfx. rewrite vis_flat_text, app_assoc. reflexivity.
     + rewrite IH. unfold a_br. rewrite vis_flat_lit by reflexivity. rewrite vis_flat_mark, vis_flat_rstrip, app_assoc. reflexivity.
@@ -230,14 +245,15 @@ Proof.
 Qed.
 
 (* every visible character of every text node and every break, in order, nothing else *)
-Theorem abs_tokens_visible : forall sfx atok ns, forallb lit_space sfx = true ->
-  vis (tok_flat (abs_tokens sfx atok ns)) = vis (node_flat ns).
+Theorem abs_tokens_visible : forall sfx acl atok ns, (forall x, vis (a_flat (acl x)) = vis (a_flat x)) ->
+  forallb lit_space sfx = true ->
+  vis (tok_flat (abs_tokens sfx acl atok ns)) = vis (node_flat ns).
 Proof.
-  intros sfx atok ns Hsfx. unfold abs_tokens, abs_run.
-  set (a := fst (fold_left (abs_step sfx atok) ns (mkA [] [], false))).
+  intros sfx acl atok ns Hcl Hsfx. unfold abs_tokens, abs_run.
+  set (a := fst (fold_left (abs_step sfx acl atok) ns (mkA [] [], false))).
   cbv zeta. rewrite flat_flush.
   change (tok_flat (rev (a_out (a_rstrip a))) ++ rev (a_cur (a_rstrip a))) with (a_flat (a_rstrip a)).
-  rewrite vis_flat_rstrip. unfold a. rewrite abs_run_vis by exact Hsfx. reflexivity.
+  rewrite vis_flat_rstrip. unfold a. rewrite (abs_run_vis sfx acl atok Hcl) by exact Hsfx. reflexivity.
 Qed.
 
 (* ---- the theorems for the DFXP writers ---------------------------------------------------------------------------------- *)
@@ -246,20 +262,20 @@ Theorem dfxp_payload_wellformed : forall region ns, nodes_ok plain_style ns = tr
             vis (flat_map tree_flat t) = vis (node_flat ns).
 Proof.
   intros region ns Hn Hf. rewrite dfxp_payload_parse by exact Hn.
-  destruct (abs_tokens_balanced [] (dfxp_atok region) ns Hf) as [Hs Hd].
+  destruct (abs_tokens_balanced [] a_close (dfxp_atok region) ns a_ok_close Hf) as [Hs Hd].
   destruct (xbuild_ok _ [] [] Hs (Forall_nil _) Hd) as [t Ht]. exists t. split; [exact Ht|].
   rewrite (xbuild_flat _ [] [] t Hs (Forall_nil _) Ht). cbn [unwind_flat rev flat_map app].
-  apply abs_tokens_visible. reflexivity.
+  apply abs_tokens_visible; [exact vis_close|reflexivity].
 Qed.
 
 Theorem legacy_payload_wellformed : forall ns, nodes_ok plain_style ns = true -> flat_balanced ns = true ->
   exists t, content_parse (legacy_payload ns) = Some t /\ vis (flat_map tree_flat t) = vis (node_flat ns).
 Proof.
   intros ns Hn Hf. rewrite legacy_payload_parse by exact Hn.
-  destruct (abs_tokens_balanced (lit " ") (dfxp_atok false) ns Hf) as [Hs Hd].
+  destruct (abs_tokens_balanced [] a_close (dfxp_atok false) ns a_ok_close Hf) as [Hs Hd].
   destruct (xbuild_ok _ [] [] Hs (Forall_nil _) Hd) as [t Ht]. exists t. split; [exact Ht|].
   rewrite (xbuild_flat _ [] [] t Hs (Forall_nil _) Ht). cbn [unwind_flat rev flat_map app].
-  apply abs_tokens_visible. reflexivity.
+  apply abs_tokens_visible; [exact vis_close|reflexivity].
 Qed.
 
 (* ---- the reader models on trees built from span / br tokens ------------------------------------------------------ *)
@@ -380,6 +396,7 @@ Section writer_flags.
   Variable m : flag3.
   Variable est : list (str * str) -> option style.
   Variable sfx : str.
+  Variable acl : ast -> ast.
   Variable atok : style -> option (list (str * str)).
   Variable dom : style -> bool.
 
@@ -434,6 +451,23 @@ Section writer_flags.
     - rewrite tstack_app, tstack_flush, Hst. reflexivity.
   Qed.
 
+  (* what the close operation does to the shown flags and to the token-level stack *)
+  Definition close_spec : Prop := forall a e, tstack est (rev (a_out a)) [] = [e] ->
+    shown (acl a) [] = shown a [e] /\ tstack est (rev (a_out (acl a))) [] = [].
+
+  Lemma close_spec_new : acl = a_close -> close_spec.
+  Proof.
+    intros E a e Hst. rewrite E. unfold a_close.
+    destruct (shown_mark (TkClose (lit "span")) a [e] [] Hst eq_refl) as [S T]. split; [exact S|exact T].
+  Qed.
+  Lemma close_spec_sp : acl = a_close_sp -> close_spec.
+  Proof.
+    intros E a e Hst. rewrite E. unfold a_close_sp. rewrite shown_lit by reflexivity. cbn [a_lit a_out].
+    destruct (shown_mark (TkClose (lit "span")) (a_rstrip a) [e] [] Hst eq_refl) as [S T].
+    split; [rewrite S; apply shown_rstrip|exact T].
+  Qed.
+  Hypothesis Hclose : close_spec.
+
   Lemma cfl_agree : forall cur, (match cur with Some st => dom st = true | None => True end) ->
     mask3 m (stack_flags (nstk_of cur)) = cfl m (tstk_of cur).
   Proof. intros [st|] H; [apply agree; exact H|reflexivity]. Qed.
@@ -441,7 +475,7 @@ Section writer_flags.
   Lemma flags_run : forall ns a cur Fd, forallb lit_space sfx = true -> flat_aux ns cur = true -> nodes_ok dom ns = true ->
     (match cur with Some st => dom st = true | None => True end) ->
     tstack est (rev (a_out a)) [] = tstk_of cur -> mflags m Fd = shown a (tstk_of cur) ->
-    let a' := fst (fold_left (abs_step sfx atok) ns (a, flag_of atok cur)) in
+    let a' := fst (fold_left (abs_step sfx acl atok) ns (a, flag_of atok cur)) in
     mflags m (Fd ++ flags_aux ns (nstk_of cur)) = shown a' [] /\ tstack est (rev (a_out a')) [] = [].
   Proof.
     induction ns as [|n ns IH]; intros a cur Fd Hsfx Hf Hn Hd Hst Hsh.
@@ -471,22 +505,18 @@ Section writer_flags.
       + destruct cur as [st0|]; [|discriminate]. apply andb_true_iff in Hf. destruct Hf as [_ Hf].
         apply andb_true_iff in Hn. destruct Hn as [_ Hn]. cbn [flag_of nstk_of tstk_of tl] in *.
         destruct (atok st0) as [attrs|] eqn:E; cbn [opt_some].
-        * apply (IH (a_close a) None Fd Hsfx Hf Hn I).
-          -- unfold a_close. cbn [a_lit a_out].
-             destruct (shown_mark (TkClose (lit "span")) (a_rstrip a) [est attrs] [] Hst eq_refl) as [_ T]. exact T.
-          -- unfold a_close. rewrite shown_lit by reflexivity. cbn [tstk_of].
-             destruct (shown_mark (TkClose (lit "span")) (a_rstrip a) [est attrs] [] Hst eq_refl) as [S _].
-             rewrite S, shown_rstrip. exact Hsh.
+        * destruct (Hclose a (est attrs) Hst) as [S T].
+          apply (IH (acl a) None Fd Hsfx Hf Hn I); [exact T|]. cbn [tstk_of]. rewrite S. exact Hsh.
         * apply (IH a None Fd Hsfx Hf Hn I); assumption.
   Qed.
 
   (* the flags of the token-level reading of the abstract tokens are the authored ones, under the mask *)
   Lemma abs_tokens_flags : forall ns, forallb lit_space sfx = true -> flat_balanced ns = true -> nodes_ok dom ns = true ->
-    mflags m (flags ns) = mflags m (tflags est (abs_tokens sfx atok ns) []).
+    mflags m (flags ns) = mflags m (tflags est (abs_tokens sfx acl atok ns) []).
   Proof.
     intros ns Hsfx Hf Hn. unfold flags, abs_tokens, abs_run.
     destruct (flags_run ns (mkA [] []) None [] Hsfx Hf Hn I eq_refl eq_refl) as [Q T]. cbn [flag_of nstk_of app] in Q, T.
-    set (a := fst (fold_left (abs_step sfx atok) ns (mkA [] [], false))) in *.
+    set (a := fst (fold_left (abs_step sfx acl atok) ns (mkA [] [], false))) in *.
     rewrite Q. cbv zeta. rewrite tflags_flush. cbn [a_rstrip a_cur a_out]. rewrite T, mflags_app, vis_drop_space_rev.
     unfold shown. f_equal. unfold mflags, cfl. rewrite map_map. reflexivity.
   Qed.
@@ -513,21 +543,22 @@ Proof.
   destruct region, i, b, u; vm_compute; reflexivity.
 Qed.
 
-Theorem dfxp_roundtrip_gen : forall sfx region payload ns, forallb lit_space sfx = true ->
-  (content_parse payload = xbuild (abs_tokens sfx (dfxp_atok region) ns) [] []) ->
+Theorem dfxp_roundtrip_gen : forall region payload ns,
+  (content_parse payload = xbuild (abs_tokens [] a_close (dfxp_atok region) ns) [] []) ->
   nodes_ok plain_style ns = true -> flat_balanced ns = true ->
   exists t, content_parse payload = Some t /\
             ok_flags m_i ns (flat_map (dfxp_nodes true) t) = true /\
             balanced (flat_map (dfxp_nodes true) t) = true.
 Proof.
-  intros sfx region payload ns Hsfx Hp Hn Hf.
-  destruct (abs_tokens_balanced sfx (dfxp_atok region) ns Hf) as [Hs Hd].
+  intros region payload ns Hp Hn Hf.
+  destruct (abs_tokens_balanced [] a_close (dfxp_atok region) ns a_ok_close Hf) as [Hs Hd].
   destruct (xbuild_ok _ [] [] Hs (Forall_nil _) Hd) as [t Ht]. exists t. split; [rewrite Hp; exact Ht|]. split.
   - unfold ok_flags. apply flags_eqb_of_mflags.
     rewrite (xbuild_nodes (dfxp_nodes true) dfxp_est dfxp_rd_br dfxp_rd_span _ [] [] t Hs (Forall_nil _) Ht).
     cbn [unwind_nodes rev flat_map app map]. unfold flags at 2.
     change (@nil style) with (somes []). rewrite (flags_tok_nodes (dfxp_nodes true) dfxp_est dfxp_rd_text).
-    apply (abs_tokens_flags m_i dfxp_est sfx (dfxp_atok region) plain_style (dfxp_agree region) ns Hsfx Hf Hn).
+    apply (abs_tokens_flags m_i dfxp_est [] a_close (dfxp_atok region) plain_style (dfxp_agree region)
+             (close_spec_new m_i dfxp_est a_close eq_refl) ns eq_refl Hf Hn).
   - apply dfxp_reader_p_balanced.
 Qed.
 
@@ -537,7 +568,7 @@ Theorem dfxp_roundtrip_flags : forall region ns, nodes_ok plain_style ns = true 
             ok_flags m_i ns (flat_map (dfxp_nodes true) t) = true /\
             balanced (flat_map (dfxp_nodes true) t) = true.
 Proof.
-  intros region ns Hn Hf. apply (dfxp_roundtrip_gen [] region _ ns eq_refl); try assumption.
+  intros region ns Hn Hf. apply (dfxp_roundtrip_gen region _ ns); try assumption.
   apply dfxp_payload_parse. exact Hn.
 Qed.
 
@@ -546,13 +577,13 @@ Theorem legacy_roundtrip_flags : forall ns, nodes_ok plain_style ns = true -> fl
             ok_flags m_i ns (flat_map (dfxp_nodes true) t) = true /\
             balanced (flat_map (dfxp_nodes true) t) = true.
 Proof.
-  intros ns Hn Hf. apply (dfxp_roundtrip_gen (lit " ") false _ ns eq_refl); try assumption.
+  intros ns Hn Hf. apply (dfxp_roundtrip_gen false _ ns); try assumption.
   apply legacy_payload_parse. exact Hn.
 Qed.
 
 (* ---- SAMI writer model -> parser -> SAMI reader model: italic, bold and underline --------------------------------------- *)
 Lemma sami_abs_flat : forall ns a cur, flat_aux ns cur = true ->
-  fold_left sami_abs_step ns (a, flag_of sami_atok cur) = fold_left (abs_step (lit " ") sami_atok) ns (a, flag_of sami_atok cur).
+  fold_left sami_abs_step ns (a, flag_of sami_atok cur) = fold_left (abs_step (lit " ") a_close_sp sami_atok) ns (a, flag_of sami_atok cur).
 Proof.
   induction ns as [|n ns IH]; intros a cur H; [reflexivity|].
   cbn [fold_left]. destruct n as [s| |[] st]; cbn [flat_aux sami_abs_step abs_step] in *.
@@ -565,7 +596,7 @@ Proof.
     destruct (opt_some (sami_atok st0)); apply (IH _ None H).
 Qed.
 
-Lemma sami_abs_tokens_flat : forall ns, flat_balanced ns = true -> sami_abs_tokens ns = abs_tokens (lit " ") sami_atok ns.
+Lemma sami_abs_tokens_flat : forall ns, flat_balanced ns = true -> sami_abs_tokens ns = abs_tokens (lit " ") a_close_sp sami_atok ns.
 Proof.
   intros ns H. unfold sami_abs_tokens, abs_tokens, abs_run. pose proof (sami_abs_flat ns (mkA [] []) None H) as Q.
   cbn [flag_of] in Q. rewrite Q. reflexivity.
@@ -593,16 +624,17 @@ Theorem sami_roundtrip_flags : forall ns, nodes_ok plain_style ns = true -> flat
             balanced (flat_map (sami_nodes true) t) = true.
 Proof.
   intros ns Hn Hf.
-  assert (Hp : content_parse (sami_payload ns) = xbuild (abs_tokens (lit " ") sami_atok ns) [] []).
+  assert (Hp : content_parse (sami_payload ns) = xbuild (abs_tokens (lit " ") a_close_sp sami_atok ns) [] []).
   { unfold content_parse. rewrite (sami_payload_tokens ns Hn), (sami_abs_tokens_flat ns Hf). reflexivity. }
-  destruct (abs_tokens_balanced (lit " ") sami_atok ns Hf) as [Hs Hd].
+  destruct (abs_tokens_balanced (lit " ") a_close_sp sami_atok ns a_ok_close_sp Hf) as [Hs Hd].
   destruct (xbuild_ok _ [] [] Hs (Forall_nil _) Hd) as [t Ht]. exists t. split; [rewrite Hp; exact Ht|]. split; [|split].
-  - rewrite (xbuild_flat _ [] [] t Hs (Forall_nil _) Ht). cbn [unwind_flat rev flat_map app]. apply abs_tokens_visible. reflexivity.
+  - rewrite (xbuild_flat _ [] [] t Hs (Forall_nil _) Ht). cbn [unwind_flat rev flat_map app]. apply abs_tokens_visible; [exact vis_close_sp|reflexivity].
   - unfold ok_flags. apply flags_eqb_of_mflags.
     rewrite (xbuild_nodes (sami_nodes true) sami_span_args sami_rd_br sami_rd_span _ [] [] t Hs (Forall_nil _) Ht).
     cbn [unwind_nodes rev flat_map app map]. unfold flags at 2.
     change (@nil style) with (somes []). rewrite (flags_tok_nodes (sami_nodes true) sami_span_args sami_rd_text).
-    apply (abs_tokens_flags m_ibu sami_span_args (lit " ") sami_atok plain_style sami_agree ns eq_refl Hf Hn).
+    apply (abs_tokens_flags m_ibu sami_span_args (lit " ") a_close_sp sami_atok plain_style sami_agree
+             (close_spec_sp m_ibu sami_span_args a_close_sp eq_refl) ns eq_refl Hf Hn).
   - apply sami_reader_p_balanced.
 Qed.
 
